@@ -375,3 +375,41 @@ Proof.
     eapply Hgen; eassumption.
   - apply Forall_map. apply incr_all_gt in H. eapply Forall_impl; [|exact H]. cbn. intros. lia.
 Qed.
+
+(* ------------------------------------------------------------------ the tail "checksum written, COMMITCOMPLETE not yet" *)
+
+(** The first five records of a TG group: the TG is intact in the log (its checksum is there) although
+    the writer has not yet appended TXNINFO(COMMITCOMPLETE).  Replay applies it: the WAL-side
+    transaction status is recorded by the scan and never consulted. *)
+Definition sum_recs (id : Z) (cs : list cmd) : list wrec :=
+  [ RTxn id DEST_WAL TXN_PREPARING; RMid; RLen (body_len cs); RBody id cs; RSum true ].
+
+Lemma scan_sum id cs size m seen :
+  body_len cs < safetyFactor * size -> existsb (Z.eqb id) seen = false ->
+  scan (sum_recs id cs) size m seen = ScanOk (tg_set id (Some cs) m).
+Proof.
+  intros Hsane Hseen. unfold sum_recs. rewrite scan_txn_wal by reflexivity.
+  cbn [scan]. apply Z.ltb_lt in Hsane. rewrite Hsane, Z.eqb_refl. cbn [andb]. rewrite Hseen. reflexivity.
+Qed.
+
+Theorem scan_log_sum its id cs size :
+  sane_items its size -> body_len cs < safetyFactor * size ->
+  NoDup (item_ids its) -> ~ In id (item_ids its) ->
+  scan (log_of its ++ sum_recs id cs) size [] [] = ScanOk (tg_set id (Some cs) (pend its [])).
+Proof.
+  intros Hs Hb Hn Hni. rewrite scan_items; try assumption; [|reflexivity].
+  apply scan_sum; [assumption|]. rewrite app_nil_r.
+  destruct (existsb (Z.eqb id) (rev (item_ids its))) eqn:E; [|reflexivity].
+  apply existsb_exists in E as (x & Hx & Ex). apply Z.eqb_eq in Ex. subst.
+  apply in_rev in Hx. contradiction.
+Qed.
+
+Lemma tg_set_entries_fresh lo (S : list tg) (t : tg) :
+  incr_from lo (S ++ [t]) -> tg_set (fst t) (Some (snd t)) (map tg_entry S) = map tg_entry (S ++ [t]).
+Proof.
+  intros H. rewrite tg_set_fresh.
+  - rewrite map_app. reflexivity.
+  - apply incr_from_app in H as [H1 H2]. cbn in H2. destruct H2 as [H2 _].
+    apply Forall_map. pose proof (incr_le_last lo S H1) as Hle.
+    eapply Forall_impl; [|exact Hle]. cbn. intros a Ha. lia.
+Qed.
